@@ -143,6 +143,14 @@ rule "keeper" salience -10 begin
   alias = Shared.Tags2
   alias[1] = 4242
 end
+rule "walker" salience -18 begin
+  forRange fwk := Shared.Tags2 {
+    nothing()
+  }
+end
+rule "walkprobe" salience -19 begin
+  probe11(fwk)
+end
 rule "looper" salience -11 begin
   forRange Cur := Shared.Tags2 {
     lpn = 1
@@ -210,7 +218,10 @@ end
 			seen10.Store(fmt.Sprintf("got %d, the rule's own object gives %d", got, want))
 		}
 	}
-	apis := map[string]interface{}{"probe10": probe10, "mkbox": func(v int64) *leakBox { return &leakBox{v: v, W: v} }, "probe9": probe9, "probe8": probe8, "probe6": probe6, "Cur": cur, "probe4": probe4, "probe5": probe5,
+	// the key of a forRange is a local like any other, also in a rule that has no assignment statement at all
+	var probed11 int64
+	probe11 := func(v int64) { atomic.AddInt64(&probed11, 1) }
+	apis := map[string]interface{}{"probe11": probe11, "probe10": probe10, "mkbox": func(v int64) *leakBox { return &leakBox{v: v, W: v} }, "probe9": probe9, "probe8": probe8, "probe6": probe6, "Cur": cur, "probe4": probe4, "probe5": probe5,
 		"pickdouble": func() func(int64) int64 { return func(x int64) int64 { return 2 * x } },
 		"picktriple": func() func(int64) int64 { return func(x int64) int64 { return 3 * x } },
 		"once":       once, "probe": probe, "hold": hold, "probe2": probe2, "probe3": probe3, "Shared": shared,
@@ -264,6 +275,10 @@ end
 		// exactly one execution assigned the local itself and may probe it
 		if len(got) > 1 || (len(got) == 1 && got[0] != 4242) {
 			k.Violate("local-leaks/"+label, fmt.Sprintf("%s: probe(secret) was reached %d times with values %v, but only the one execution that assigned the local itself may read it", label, len(got), got),
+				map[string]interface{}{"rule_text": text, "scenario": label})
+		}
+		if n := atomic.SwapInt64(&probed11, 0); n > 0 {
+			k.Violate("loop-key-leaks/"+label, fmt.Sprintf("%s: the key of `forRange fwk := Shared.Tags2 {...}` in rule \"walker\" (a rule without any assignment statement) was readable by rule \"walkprobe\", which never assigned it, %d time(s)", label, n),
 				map[string]interface{}{"rule_text": text, "scenario": label})
 		}
 		if n := atomic.SwapInt64(&probed2, 0); n > 0 {
